@@ -81,3 +81,21 @@ def sized_lists(elements, lo, hi):
     elements whatever max_size is, which leaves long histories untested)."""
     from hypothesis import strategies as st
     return st.integers(lo, hi).flatmap(lambda n: st.lists(elements, min_size=n, max_size=n))
+
+
+def wone_of(*strategies):
+    """one_of with weights given by repetition: wone_of(a, a, a, b) draws a three times as often as b.
+    (hypothesis.strategies.one_of silently de-duplicates repeated strategy objects, so repetition alone gives no weight.)"""
+    from hypothesis import strategies as st
+    uniq, index = [], []
+    for s in strategies:
+        for i, u in enumerate(uniq):
+            if u is s:
+                index.append(i)
+                break
+        else:
+            uniq.append(s)
+            index.append(len(uniq) - 1)
+    if len(uniq) == len(strategies):
+        return st.one_of(*strategies)
+    return st.sampled_from(index).flatmap(lambda i: uniq[i])
